@@ -3,6 +3,6 @@ EXTENDS Client, Json
 DumpEdge ==
     PrintT(<<"EDGE", ToJson([path |-> hist, step |-> hist'[Len(hist')],
                              post |-> [doc |-> doc', upd |-> upd', rec |-> rec', deact |-> deact', ao |-> ao',
-                                       exists |-> phase' # "start"]])>>)
-View == <<doc, upd, rec, deact, ao, nk, phase, len>>
+                                       exists |-> phase' # "start", updAlg |-> updAlg', recAlg |-> recAlg']])>>)
+View == <<doc, upd, rec, deact, ao, nk, phase, len, updAlg, recAlg>>
 =============================================================================
